@@ -45,6 +45,9 @@ func (x *fpsX) isStr(e ast.Expr) bool {
 		return x.isStr(v.X)
 	case *ast.BinaryExpr:
 		return v.Op == token.ADD && (x.isStr(v.X) || x.isStr(v.Y))
+	case *ast.CallExpr:
+		_, ok := fpsStrCalls[x.pr(v.Fun)]
+		return ok
 	case *ast.Ident:
 		if ce, _, _, _ := findConstExpr(x.dir, v.Name); ce != nil {
 			if bl, ok := ce.(*ast.BasicLit); ok && bl.Kind == token.STRING {
@@ -114,6 +117,14 @@ func (x *fpsX) expr(e ast.Expr) string {
 		case "int64", "int", "uint32", "uint64", "int32":
 			return x.expr(v.Args[0])
 		}
+		// string-valued library calls (member-name normalisation in lib/signdeb): mapped to the Gallina functions of fpsGoStrings
+		if coq, ok := fpsStrCalls[fn]; ok && len(v.Args) == coq.arity {
+			parts := []string{coq.name}
+			for _, a := range v.Args {
+				parts = append(parts, x.expr(a))
+			}
+			return "(" + strings.Join(parts, " ") + ")"
+		}
 		return x.fail("unmapped call %s", fn)
 	case *ast.BinaryExpr:
 		a, b := x.expr(v.X), x.expr(v.Y)
@@ -163,6 +174,239 @@ func coqZ(n int64) string {
 		return fmt.Sprintf("(%d)", n)
 	}
 	return fmt.Sprintf("%d", n)
+}
+
+// Go library calls on strings that the translator knows, with the Gallina function each one is mapped to. The functions
+// themselves are emitted into the generated file by fpsGoStrings (hand-written models of path.Clean, path.Base,
+// strings.Trim*; they are inside the correspondence check: the driver runs the real functions on a name sweep).
+var fpsStrCalls = map[string]struct {
+	name  string
+	arity int
+}{
+	"path.Clean":         {"go_path_clean", 1},
+	"path.Base":          {"go_path_base", 1},
+	"strings.TrimSpace":  {"go_trim_space", 1},
+	"strings.TrimSuffix": {"go_trim_suffix", 2},
+	"strings.TrimPrefix": {"go_trim_prefix", 2},
+	"strings.TrimRight":  {"go_trim_right", 2},
+	"strings.TrimLeft":   {"go_trim_left", 2},
+	"strings.Trim":       {"go_trim", 2},
+	"strings.ToLower":    {"go_to_lower", 1},
+	"strings.ToUpper":    {"go_to_upper", 1},
+}
+
+const fpsGoStrings = `(* ---- Go library functions on byte strings used by the translated expressions (hand models; ASCII white space only) *)
+Fixpoint go_split_slash (l : list Z) : list (list Z) :=
+  match l with
+  | [] => [[]]
+  | c :: r =>
+      match go_split_slash r with
+      | h :: t => if c =? 47 then [] :: h :: t else (c :: h) :: t
+      | [] => [[]]
+      end
+  end.
+(* path.Clean, rule by rule: empty and "." elements vanish; ".." removes the element before it, is kept at the front of a
+   relative path and dropped at the root *)
+Definition go_clean_step (rooted : bool) (st : list (list Z)) (c : list Z) : list (list Z) :=
+  if bytes_eqb c [] || bytes_eqb c [46] then st
+  else if bytes_eqb c [46; 46] then
+    match st with
+    | top :: rest => if bytes_eqb top [46; 46] then (if rooted then st else c :: st) else rest
+    | [] => if rooted then [] else [c]
+    end
+  else c :: st.
+Fixpoint go_join_slash (cs : list (list Z)) : list Z :=
+  match cs with
+  | [] => []
+  | c :: r => match r with [] => c | _ => c ++ 47 :: go_join_slash r end
+  end.
+Definition go_path_clean (p : list Z) : list Z :=
+  match p with
+  | [] => [46]
+  | c0 :: _ =>
+      let rooted := c0 =? 47 in
+      let body := go_join_slash (rev (fold_left (go_clean_step rooted) (go_split_slash p) [])) in
+      if rooted then 47 :: body else match body with [] => [46] | _ => body end
+  end.
+Fixpoint go_drop_while (p : Z -> bool) (l : list Z) : list Z :=
+  match l with c :: r => if p c then go_drop_while p r else l | [] => [] end.
+Fixpoint go_take_until (p : Z -> bool) (l : list Z) : list Z :=
+  match l with c :: r => if p c then [] else c :: go_take_until p r | [] => [] end.
+Definition go_is_slash (c : Z) : bool := c =? 47.
+Definition go_path_base (p : list Z) : list Z :=
+  match p with
+  | [] => [46]
+  | _ => match rev (go_take_until go_is_slash (go_drop_while go_is_slash (rev p))) with [] => [47] | b => b end
+  end.
+Definition go_is_space (c : Z) : bool := (c =? 32) || ((9 <=? c) && (c <=? 13)).
+Definition go_in_set (cut : list Z) (c : Z) : bool := existsb (Z.eqb c) cut.
+Definition go_trim_left_f (p : Z -> bool) (l : list Z) : list Z := go_drop_while p l.
+Definition go_trim_right_f (p : Z -> bool) (l : list Z) : list Z := rev (go_drop_while p (rev l)).
+Definition go_trim_space (l : list Z) : list Z := go_trim_right_f go_is_space (go_trim_left_f go_is_space l).
+Definition go_trim_right (l cut : list Z) : list Z := go_trim_right_f (go_in_set cut) l.
+Definition go_trim_left (l cut : list Z) : list Z := go_trim_left_f (go_in_set cut) l.
+Definition go_trim (l cut : list Z) : list Z := go_trim_right_f (go_in_set cut) (go_trim_left_f (go_in_set cut) l).
+Definition go_trim_suffix (l s : list Z) : list Z := if has_suffix l s then firstn (length l - length s) l else l.
+Definition go_trim_prefix (l p : list Z) : list Z := if has_prefix l p then skipn (length p) l else l.
+Definition go_to_lower (l : list Z) : list Z := map (fun c => if (65 <=? c) && (c <=? 90) then c + 32 else c) l.
+Definition go_to_upper (l : list Z) : list Z := map (fun c => if (97 <=? c) && (c <=? 122) then c - 32 else c) l.
+
+`
+
+// operand of the slice expression on the right-hand side of the nth assignment to lhs
+func fpsSliceOperand(lhs string, nth int) (string, func(*pkgInfo, *ast.FuncDecl) ast.Expr) {
+	w, f := fpsAssign(lhs, nth)
+	return w + " (sliced operand)", func(p *pkgInfo, fd *ast.FuncDecl) ast.Expr {
+		se, ok := f(p, fd).(*ast.SliceExpr)
+		if !ok {
+			return nil
+		}
+		return se.X
+	}
+}
+
+// index expression of the nth assignment whose left-hand side is m[<index>] with m printing as mapName
+func fpsMapKey(mapName string, nth int) (string, func(*pkgInfo, *ast.FuncDecl) ast.Expr) {
+	return fmt.Sprintf("key of assignment #%d to %s[...]", nth, mapName), func(p *pkgInfo, fd *ast.FuncDecl) ast.Expr {
+		var found ast.Expr
+		k := 0
+		ast.Inspect(fd.Body, func(n ast.Node) bool {
+			if found != nil {
+				return false
+			}
+			if as, ok := n.(*ast.AssignStmt); ok && len(as.Lhs) >= 1 {
+				if ix, ok := as.Lhs[0].(*ast.IndexExpr); ok && printNode(p.fset, ix.X) == mapName {
+					if k == nth {
+						found = ix.Index
+						return false
+					}
+					k++
+				}
+			}
+			return true
+		})
+		return found
+	}
+}
+
+// fpsDebLoop: the shape of the member loop of signdeb.Sign — the order of its top-level statements, whether the slot test
+// is made before members named _gpg* are skipped, what the skip does, and what happens to an error of reader.Next().
+func (o *out) fpsDebLoop() {
+	const d = "lib/signdeb"
+	p, fd := findFunc(d, "", "Sign")
+	if fd == nil {
+		o.brokenDef("deb_loop_order", "signdeb.Sign not found")
+		return
+	}
+	var loop *ast.ForStmt
+	ast.Inspect(fd.Body, func(n ast.Node) bool {
+		if fs, ok := n.(*ast.ForStmt); ok && loop == nil && fs.Cond == nil && fs.Init == nil {
+			loop = fs
+		}
+		return loop == nil
+	})
+	if loop == nil {
+		o.brokenDef("deb_loop_order", "member loop (for { ... }) not found in signdeb.Sign")
+		return
+	}
+	pr := func(n ast.Node) string { return strings.Join(strings.Fields(printNode(p.fset, n)), " ") }
+	var order, shown []string
+	pos := map[int]int{}
+	slotOK, skipOK, errReturns, errSeen := false, false, false, false
+	for i, st := range loop.Body.List {
+		cls := 9
+		switch s := st.(type) {
+		case *ast.AssignStmt:
+			if len(s.Lhs) == 1 && pr(s.Lhs[0]) == "name" {
+				cls = 0
+			} else if len(s.Rhs) == 1 && strings.Contains(pr(s.Rhs[0]), "reader.Next()") {
+				cls = 6
+			}
+		case *ast.IfStmt:
+			c := pr(s.Cond)
+			switch {
+			case strings.Contains(c, "io.EOF"):
+				cls = 7
+				errSeen = true
+				// else-branch: `else if err != nil { return nil, err }`
+				ei, ok := s.Else.(*ast.IfStmt)
+				if !ok || pr(ei.Cond) != "err != nil" || len(ei.Body.List) != 1 || ei.Else != nil {
+					o.brokenDef("deb_loop_order", "an error of reader.Next() other than io.EOF is not handled by `else if err != nil { ... }`")
+					return
+				}
+				if rs, ok := ei.Body.List[0].(*ast.ReturnStmt); ok && len(rs.Results) == 2 && pr(rs.Results[0]) == "nil" && pr(rs.Results[1]) == "err" {
+					errReturns = true
+				} else if pr(ei.Body.List[0]) != "break" {
+					o.brokenDef("deb_loop_order", "the error branch after reader.Next() neither returns the error nor leaves the loop")
+					return
+				}
+				if len(s.Body.List) != 1 || pr(s.Body.List[0]) != "break" {
+					o.brokenDef("deb_loop_order", "the io.EOF branch of the member loop is not a plain break")
+					return
+				}
+			case strings.Contains(c, "filename"):
+				cls = 1
+				// the body sets patchOffset and patchLength and nothing else; no else branch
+				slotOK = s.Else == nil && s.Init == nil && len(s.Body.List) == 2
+				for _, b := range s.Body.List {
+					as, ok := b.(*ast.AssignStmt)
+					if !ok || len(as.Lhs) != 1 || (pr(as.Lhs[0]) != "patchOffset" && pr(as.Lhs[0]) != "patchLength") || as.Tok != token.ASSIGN {
+						slotOK = false
+					}
+				}
+			case strings.Contains(c, "\"_gpg\""):
+				cls = 2
+				skipOK = s.Else == nil && s.Init == nil && len(s.Body.List) == 1 && pr(s.Body.List[0]) == "continue"
+			case strings.Contains(c, "\"control.tar\""):
+				cls = 3
+			case s.Init != nil && strings.Contains(pr(s.Init), "io.Copy"):
+				cls = 4
+			case c == "closer != nil" || c == "errch != nil":
+				cls = 8
+			}
+		case *ast.ExprStmt:
+			if strings.HasPrefix(pr(s.X), "fmt.Fprintf(msg") {
+				cls = 5
+			}
+		case *ast.DeclStmt:
+			cls = 8
+		}
+		if cls == 0 || cls == 1 || cls == 2 || cls == 5 {
+			if _, dup := pos[cls]; dup {
+				o.brokenDef("deb_loop_order", fmt.Sprintf("statement class %d occurs twice in the member loop", cls))
+				return
+			}
+			pos[cls] = i
+		}
+		order = append(order, strconv.Itoa(cls))
+		shown = append(shown, fmt.Sprintf("%d:%s", cls, strings.SplitN(pr(st), "{", 2)[0]))
+	}
+	for _, need := range []int{0, 1, 2, 5} {
+		if _, ok := pos[need]; !ok {
+			o.brokenDef("deb_loop_order", fmt.Sprintf("statement class %d (0 name:=, 1 slot test, 2 _gpg skip, 5 Files line) not found at the top level of the member loop", need))
+			return
+		}
+	}
+	if !slotOK {
+		o.brokenDef("deb_loop_order", "the slot test does not have the shape `if <cond> { patchOffset = ...; patchLength = ... }`")
+		return
+	}
+	if !skipOK {
+		o.brokenDef("deb_loop_order", "the _gpg test does not have the shape `if <cond> { continue }`")
+		return
+	}
+	if !errSeen {
+		o.brokenDef("deb_loop_order", "the io.EOF test after reader.Next() was not found")
+		return
+	}
+	if pos[0] > pos[1] || pos[0] > pos[2] {
+		o.brokenDef("deb_loop_order", "`name :=` does not precede the tests that use it")
+		return
+	}
+	o.f("Definition deb_loop_order : list Z := [%s]. (* top-level statements of the member loop of %s.Sign: %s *)\n", strings.Join(order, "; "), d, strings.Join(shown, " | "))
+	o.f("Definition deb_slot_before_skip : bool := %v. (* the slot test `name == filename` is made before members named _gpg* are skipped *)\n", pos[1] < pos[2])
+	o.f("Definition deb_line_after_skip : bool := %v. (* the Files: line is written after the skip (signature members are not listed) *)\n", pos[2] < pos[5])
+	o.f("Definition deb_next_err_returns : bool := %v. (* an error of reader.Next() other than io.EOF makes Sign return it *)\n", errReturns)
 }
 
 type fpsSpec struct {
@@ -499,6 +743,7 @@ func init() {
 		// helper predicates the translated conditions refer to (Go's strings.HasPrefix / HasSuffix on byte strings)
 		o.f("Fixpoint has_prefix (l p : list Z) {struct p} : bool :=\n  match p, l with\n  | [], _ => true\n  | x :: p', y :: l' => (x =? y) && has_prefix l' p'\n  | _ :: _, [] => false\n  end.\n")
 		o.f("Definition has_suffix (l s : list Z) : bool := has_prefix (rev l) (rev s).\n\n")
+		o.f("%s", fpsGoStrings)
 		o.f("(* ---- PowerShell: lib/authenticode/powershell.go *)\n")
 		o.constString(a, "psBegin", "ps_begin")
 		o.constString(a, "psEnd", "ps_end")
@@ -593,6 +838,14 @@ func init() {
 			"patchOffset": "patch_off", "info == nil": "no_info"}
 		w, f = fpsAssign("filename", 0)
 		o.fpsEmit(mkd("Sign", "deb_filename", "(role : list Z)", "list Z", sgL, "role"), w, f)
+		// member-name normalisation: `name := path.Clean(hdr.Name)`; every later test of Sign is made on `name`
+		nmL := map[string]string{"hdr.Name": "raw", "name": "name", "hdr.Size": "size"}
+		w, f = fpsAssign("name", 0)
+		o.fpsEmit(mkd("Sign", "deb_norm", "(raw : list Z)", "list Z", nmL, "hdr.Name"), w, f)
+		// the name written into the Files: line of the signed manifest (last argument of the Fprintf in the loop)
+		w, f = fpsCallArg("fmt.Fprintf", 0, 5)
+		o.fpsEmit(mkd("Sign", "deb_line_name", "(raw name : list Z)", "list Z", nmL, "hdr.Name", "name"), w, f)
+		o.fpsDebLoop()
 		w, f = fpsAssign("patchOffset", 0)
 		o.fpsEmit(mkd("Sign", "deb_patch_off", "(n_read : Z)", "Z", sgL), w, f)
 		w, f = fpsAssign("patchLength", 0)
@@ -623,6 +876,13 @@ func init() {
 		o.fpsEmit(mkd("Verify", "deb_v_is_gpg", "(name : list Z)", "bool", vdL, "hdr.Name"), w, f)
 		w, f = fpsSliceBound("role", 0, "low")
 		o.fpsEmit(mkd("Verify", "deb_v_role_from", "", "Z", vdL), w, f)
+		// what Verify slices the role from, and the key of its digest map: the member name as the ar reader returns it
+		w, f = fpsSliceOperand("role", 0)
+		o.fpsEmit(mkd("Verify", "deb_v_role_src", "(name : list Z)", "list Z", vdL, "hdr.Name"), w, f)
+		w, f = fpsMapKey("digests", 0)
+		o.fpsEmit(mkd("Verify", "deb_v_key", "(name : list Z)", "list Z", vdL, "hdr.Name"), w, f)
+		w, f = fpsMapKey("sigs", 0)
+		o.fpsEmit(mkd("Verify", "deb_v_sig_key", "(role : list Z)", "list Z", map[string]string{"role": "role"}, "role"), w, f)
 		csL := map[string]string{"line": "line", "line[0]": "c0", "len(line)": "line_len", "calculated": "calculated", "sums": "sums"}
 		w, f = fpsCond("if", "Files", 0)
 		o.fpsEmit(mkd("checkSig", "deb_cs_files", "(line : list Z)", "bool", csL, "line"), w, f)
